@@ -165,6 +165,21 @@ Theorem C06_tb_binop_layout_independent :
 Proof. exact tb_binop_layout_independent. Qed.
 Print Assumptions C06_tb_binop_layout_independent.
 
+(* ... and with a 1-D or scalar operand on either axis (Frame with Series / array / scalar): chopping the
+   operand to the block widths (axis 0), or applying it to every column of every block (axis 1), equals the
+   per-column application on the flattened columns, for every layout. *)
+Theorem C06_tb_rowwise_layout_independent :
+  forall (V R : Type) (f : V -> V -> R) (t : list (blk V)) (other : list V),
+  M_tb_rowwise_g V R f t other = S_tb_rowwise V R f t other.
+Proof. exact tb_rowwise_layout_independent. Qed.
+Print Assumptions C06_tb_rowwise_layout_independent.
+
+Theorem C06_tb_colwise_layout_independent :
+  forall (V R : Type) (f : V -> V -> R) (t : list (blk V)) (other : list V),
+  M_tb_colwise_g V R f t other = S_tb_colwise V R f t other.
+Proof. exact tb_colwise_layout_independent. Qed.
+Print Assumptions C06_tb_colwise_layout_independent.
+
 (* The keyword constants of the source (REGENERATED into Gen/Gen_c06.v on every run: check_equals=False and
    union in Series._ufunc_binary_operator, union x4 in Frame._ufunc_binary_operator, fill_value=np.nan,
    assume_unique per operand kind in Index._ufunc_set, assume_unique=True in from_correspondence) are the
